@@ -352,11 +352,73 @@ def f_plain_helpers(which, x):
     return True
 
 
+def f_dedup_reenter(binding, sp, spi, conv, x, y, z):
+    """A deduplicated body that, while running, calls itself again with the same arguments (the nested call gets a
+    private execution): nested and outer call both run the body with the receiver and arguments of the call."""
+    b, s, si, cv = conc(binding, 3), conc(sp, 4), conc(spi, 2), conc(conv, 2)
+    rec.clear_fail()
+    _B.cur[0] = None
+    state = {"depth": 0, "inner": None}
+
+    class K(object):
+        def __init__(self, t):
+            self.t = t
+
+        @deduplicate()
+        @A()
+        def m(self, x, y=5, *, z=7):
+            if state["depth"] == 0:
+                state["depth"] = 1
+                state["inner"] = call_spelling(self.m.asynq, si, None, x, y, z).value()
+            a = yield _It(x)
+            return ("async", recv_tag(self), a, y, z)
+
+    class Falsy(K):
+        def __len__(self):
+            return 0
+
+    @deduplicate()
+    @A()
+    def fn(x, y=5, *, z=7):
+        if state["depth"] == 0:
+            state["depth"] = 1
+            state["inner"] = call_spelling(fn.asynq, si, None, x, y, z).value()
+        a = yield _It(x)
+        return ("async", None, a, y, z)
+
+    inst = None if b == 0 else (K(3) if b == 1 else Falsy(4))
+    target = fn if inst is None else inst.m
+    ex, ey, ez = expected_args(s, x, y, z)
+    want = ("async", recv_tag(inst), ex, ey, ez)
+    try:
+        if cv == 0:
+            got = call_spelling(target, s, None, x, y, z)
+        else:
+            got = call_spelling(target.asynq, s, None, x, y, z).value()
+    except Exception as e:
+        prog.reraise_control(e)
+        return rec.fail("deduplicated %s re-entering itself (outer spelling %d, nested spelling %d): raised %r" % (
+            BINDINGS[[0, 1, 6][b]], s, si, e))
+    if got != want:
+        return rec.fail("deduplicated %s re-entering itself: outer call returned %r, expected %r" % (
+            BINDINGS[[0, 1, 6][b]], got, want))
+    if state["inner"] != want:
+        return rec.fail("deduplicated %s re-entering itself with spelling %d: nested call returned %r, expected %r" % (
+            BINDINGS[[0, 1, 6][b]], si, state["inner"], want))
+    rec.wit("paths")
+    rec.done(("c09re", b, s, si, cv), True)
+    return True
+
+
 def conds(tier):
     out = []
     out.append(Cond("matrix", f_matrix, [I("kind", 0, len(KINDS) - 1), I("binding", 0, 8), I("sp", 0, 3),
                                          I("x"), I("y"), I("z")], pin=1, builds=("C", "P"), budget=200,
                     family="decorator kind x binding x argument spelling, symbolic arguments", encodes=ENC))
+    out.append(Cond("dedup_reenter", f_dedup_reenter, [I("binding", 0, 2), I("sp", 0, 3), I("spi", 0, 1), I("conv", 0, 1),
+                                                       I("x", 0, 1), I("y", 0, 1), I("z", 0, 1)], pin=2, builds=("C", "P"), budget=60,
+                    family="deduplicated function / method that calls itself with the same key while running: "
+                           "spelling of the outer and of the nested call, convention", encodes=ENC))
     out.append(Cond("helpers", f_plain_helpers, [I("which", 0, 2), I("x")], pin=0, builds=("C", "P"), budget=60,
                     family="classification helpers on non-async callables", encodes=ENC))
     return out
